@@ -164,3 +164,19 @@ def fn_table(grammar):
 
 def show(s):
     return s.encode("unicode_escape").decode("ascii") if any(ord(ch) > 126 or ord(ch) < 32 for ch in s) else s
+
+
+def replay_generic(args, judge):
+    """--replay <case.json>: run the stored case on the real build; judge(case, outcome) -> True if it still violates"""
+    from sx import replay as _rp
+    case = json.load(open(args.replay))
+    rp = _rp.Replay(release=bool(case.get("release")))
+    q = {k: v for k, v in case.items() if k not in ("obligation", "what", "expect", "property")}
+    out = rp.run(q)
+    rp.close()
+    print("replay %s -> %s" % (json.dumps(q, ensure_ascii=True)[:300], json.dumps(out, ensure_ascii=True)[:300]))
+    if judge(case, out):
+        print("VIOLATION property=%s replay=%s" % (args.prop, args.replay))
+        return 1
+    print("does not reproduce on the current tree")
+    return 0
